@@ -944,7 +944,7 @@ _pol = st.sampled_from([[0.0, 1.0, 0.0], [1.0, 0.0, 0.0], [1.0, 1.0, 0.0]])
 
 def _lprofile():
     base = {"pol": _pol, "length": st.sampled_from([1.8, 2.4, 3.0]), "radius": st.sampled_from([0.03, 0.06])}
-    pe, pl = st.sampled_from([0.5, 2.0, 5.0]), st.sampled_from([1e-8, 3e-8])
+    pe, pl = st.sampled_from([0.5, 2.0, 5.0, 1.0]), st.sampled_from([1e-8, 3e-8, 1e-8, 3e-8, 1.0])
     sx = st.sampled_from([0.01, 0.02])
     return st.one_of(
         st.fixed_dictionaries(dict(base, kind=st.just("uniform"), ed=st.sampled_from([1.0, 30.0]))),
@@ -980,14 +980,15 @@ def laser_params(draw):
 
 
 _PROFILE_SETTERS = {
-    "length": ("laser_length", ["uniform", "bivariate", "trivariate", "gaussbeam"], [1.8, 2.4, 3.0]),
-    "radius": ("laser_radius", ["uniform", "bivariate", "trivariate", "gaussbeam"], [0.03, 0.06]),
+    # the last entries are constructor defaults / internal presets of the profile classes, exactly (pulse_length = 1 s and all)
+    "length": ("laser_length", ["uniform", "bivariate", "trivariate", "gaussbeam"], [1.8, 2.4, 3.0, 1.0]),
+    "radius": ("laser_radius", ["uniform", "bivariate", "trivariate", "gaussbeam"], [0.03, 0.06, 0.05]),
     "ed": ("energy_density", ["uniform"], [1.0, 30.0, 7.0]),
-    "pe": ("pulse_energy", ["bivariate", "trivariate", "gaussbeam"], [0.5, 2.0, 5.0]),
-    "pl": ("pulse_length", ["bivariate", "trivariate", "gaussbeam"], [1e-8, 3e-8, 5e-9]),
+    "pe": ("pulse_energy", ["bivariate", "trivariate", "gaussbeam"], [0.5, 2.0, 5.0, 1.0]),
+    "pl": ("pulse_length", ["bivariate", "trivariate", "gaussbeam"], [1e-8, 3e-8, 5e-9, 1.0]),
     "sx": ("stddev_x", ["bivariate", "trivariate"], [0.01, 0.02]),
     "sy": ("stddev_y", ["bivariate", "trivariate"], [0.01, 0.02]),
-    "mz": ("mean_z", ["trivariate"], [0.8, 1.2, 1.6]),
+    "mz": ("mean_z", ["trivariate"], [0.8, 1.2, 1.6, 0.0, 1.0]),
     "wz": ("waist_z", ["gaussbeam"], [0.5, 1.2]),
     "sw": ("stddev_waist", ["gaussbeam"], [0.003, 0.01]),
     "lw": ("laser_wavelength", ["gaussbeam"], [532.0, 1064.0]),
